@@ -113,7 +113,7 @@ func main() {
 	os.WriteFile(filepath.Join(*out, "TRACKED"), []byte(strings.Join(names, "\n")+"\n"), 0o644)
 
 	for _, x := range files {
-		in := &instr{fset: fset, tracked: tracked, file: filepath.Base(x.path)}
+		in := &instr{fset: fset, tracked: tracked, file: filepath.Base(x.path), vnet: x.pkg == "pkg/socks" || x.pkg == "pkg/agent"}
 		in.rewriteFile(x.f)
 		var buf bytes.Buffer
 		x.f.Comments = keepDirectives(x.f)
@@ -163,6 +163,7 @@ type instr struct {
 	file    string
 	tmp     int
 	needV   bool
+	vnet    bool
 }
 
 func (in *instr) rewriteFile(f *ast.File) {
@@ -174,6 +175,13 @@ func (in *instr) rewriteFile(f *ast.File) {
 			im.Path.Value = `"verifmc/vsync"`
 			if im.Name == nil {
 				im.Name = ast.NewIdent("sync")
+			}
+		case "net":
+			if in.vnet {
+				im.Path.Value = `"verifmc/vnet"`
+				if im.Name == nil {
+					im.Name = ast.NewIdent("net")
+				}
 			}
 		case "math/rand":
 			im.Path.Value = `"verifmc/vrand"`
